@@ -416,6 +416,9 @@ pub fn run(ctx: &Ctx) -> Report {
     // reachable through `build` alone; use `check` on the warn variant, then build.
     proj::restore(&sb0.root, &starts[0].snap);
     sb0.write("src/b.veryl", &fixture::content("src/b.veryl", "warn"));
+    // a user of the package's function, so that an interface change of pkg.veryl is only
+    // noticed by a dependent's pass 2 (a lost `dependents` list then shows as a wrong restore)
+    sb0.write("src/c.veryl", &fixture::content("src/c.veryl", "v0"));
     sb0.veryl(&["build"]);
     let dstate = proj::snapshot(&sb0.root);
     let build_files: Vec<String> = dstate
@@ -429,10 +432,11 @@ pub fn run(ctx: &Ctx) -> Report {
     let mut blobs_sorted = blobs.clone();
     blobs_sorted.sort_by_key(|b| dstate.files[b].0.len());
     let mut damages: Vec<(Damage, Vec<Edit>, &'static str)> = vec![];
+    let iface = vec![Edit::Set("src/pkg.veryl".into(), "iface".into())];
     let fu_sets: Vec<Vec<Edit>> = if ctx.thorough() {
-        vec![vec![], vec![Edit::Touch("src/a.veryl".into())], vec![Edit::Set("src/b.veryl".into(), "v1".into())]]
+        vec![vec![], vec![Edit::Touch("src/a.veryl".into())], vec![Edit::Set("src/b.veryl".into(), "v1".into())], iface.clone()]
     } else {
-        vec![vec![Edit::Touch("src/a.veryl".into())]]
+        vec![vec![Edit::Touch("src/a.veryl".into())], iface.clone()]
     };
     for f in &build_files {
         let len = dstate.files[f].0.len();
@@ -442,6 +446,16 @@ pub fn run(ctx: &Ctx) -> Report {
         for n in [0usize, 1, 4, 7, 8, 9, len / 2, len.saturating_sub(1)] {
             if n < len {
                 kinds.push(format!("trunc:{n}"));
+            }
+        }
+        if kind == "manifest" || kind == "info" {
+            // a torn text file: every line boundary (a writer killed between two lines, a
+            // file system that persisted only whole blocks ...)
+            let data = &dstate.files[f].0;
+            for (i, b) in data.iter().enumerate() {
+                if *b == b'\n' && i + 1 < len {
+                    kinds.push(format!("trunc:{}", i + 1));
+                }
             }
         }
         if full {
@@ -474,6 +488,17 @@ pub fn run(ctx: &Ctx) -> Report {
             }
         }
     }
+    // order: manifest and info.toml first, deletions and truncations before byte flips, so that a
+    // budget cap cuts the long tail of blob byte flips and not the structural damages
+    damages.sort_by_key(|(d, _, _)| {
+        let fk = match file_kind(&d.file) {
+            "manifest" => 0,
+            "info" => 1,
+            _ => 2,
+        };
+        let dk = if d.kind.starts_with("xor") { 1 } else { 0 };
+        (dk, fk)
+    });
     if part == "crash" {
         damages.clear();
     }
